@@ -16,9 +16,15 @@ From V Require Import Base.Bytes Tail.LineReader.
 (* operations on the file at the tailed path *)
 Inductive op :=
 | AppendLine (l : bytes) | AppendFrag (f : bytes) | AppendCRLF (l : bytes)
+| AppendRep (u : bytes) (k : nat) (t : bytes)
 | Truncate | RenameCreate (d : bytes) | CopyTruncate | Delete | Recreate | Idle.
 (* RenameCreate d: the file is renamed away and a new file containing d is
    created at the path in one step (d = [] for a plain rename + create) *)
+
+(* AppendRep u k t: one large append, u repeated k times followed by t (used to
+   place a line ending exactly on the 131072-byte read boundary without
+   shipping 128 KiB through the case files) *)
+Definition rep_data (u : bytes) (k : nat) (t : bytes) : bytes := concat (repeat u k) ++ t.
 
 (* ---------------- specification ---------------- *)
 (* state: None = no file at the path; Some g = a file that is being tailed, g =
@@ -31,6 +37,7 @@ Definition spec_step (sp : option bytes) (o : op) : list bytes * option bytes :=
   | Some g, AppendLine l => ([], Some (g ++ l ++ [NL]))
   | Some g, AppendFrag f => ([], Some (g ++ f))
   | Some g, AppendCRLF l => ([], Some (g ++ l ++ [CR; NL]))
+  | Some g, AppendRep u k t => ([], Some (g ++ rep_data u k t))
   | Some g, Truncate | Some g, CopyTruncate => (frame g, Some [])
   | Some g, RenameCreate d => (frame g, Some d)
   | Some g, Delete => (frame g, None)
@@ -64,6 +71,7 @@ Definition fs_op (o : op) (s : fsys) : fsys :=
       | AppendLine l => mk_fs (upd f i (f i ++ l ++ [NL])) (cur s) (next_ino s)
       | AppendFrag d => mk_fs (upd f i (f i ++ d)) (cur s) (next_ino s)
       | AppendCRLF l => mk_fs (upd f i (f i ++ l ++ [CR; NL])) (cur s) (next_ino s)
+      | AppendRep u k t => mk_fs (upd f i (f i ++ rep_data u k t)) (cur s) (next_ino s)
       | Truncate => mk_fs (upd f i []) (cur s) (next_ino s)
       | RenameCreate d => mk_fs (upd f (next_ino s) d) (Some (next_ino s)) (S (next_ino s))
       | CopyTruncate => mk_fs (upd (upd f (next_ino s) (f i)) i []) (cur s) (S (next_ino s))
